@@ -278,6 +278,11 @@ def run(pid, tier, seed, res, seeds_extra=None, only=None):
             only_debug = all(t["debug"].get(x) for x in diff)
             prop = "C13" if only_debug and q["kind"] != "setup" else owner
             res.hit(prop, "monitor", "%s selects %s, documented closure is %s" % (qdesc(q), r["nodes"], m_nodes), dict(base, kind="monitor", query=q))
+            names_dbg = {"n%d" % i_ for i_ in case["debug"]}
+            tnames = {("n%d" % a_[1]) if a_[0] == "ref" else a_[1] for a_ in (q["target"] or [])}
+            if prop != "C13" and q["kind"] == "exec" and (tnames & names_dbg or any(set(case["tags"].get(str(i_), []) if not isinstance(case["tags"].get(str(i_)), str) else [case["tags"][str(i_)]]) & tnames for i_ in case["debug"])):
+                # a selection that names a debug node: the production nodes it needs are the same under both settings
+                res.hit("C13", "monitor", "%s (a debug node is among the targets) selects %s, documented closure is %s" % (qdesc(q), r["nodes"], m_nodes), dict(base, kind="monitor", query=q))
             if "executed" in r and r.get("run_status") == "ok" and prop == "C12":
                 # C03: exactly the selected nodes are entered, the selection being the documented one
                 expect_ = sorted(set(m_nodes) - set(r["pre"]))
